@@ -515,7 +515,9 @@ type c17Node struct {
 }
 
 var c17Mtimes = []int64{1_000_000_000, 1, 1<<31 - 1, 1 << 31, 1<<32 - 1, 1_234_567_890}
-var c17Owners = [][2]int{{0, 0}, {1, 2}, {65534, 65533}, {0, 7}}
+
+// (5:5 and 65534:65534: one number that is a user and a group with different names - games/tty, nobody/nogroup)
+var c17Owners = [][2]int{{0, 0}, {1, 2}, {65534, 65533}, {0, 7}, {5, 5}, {65534, 65534}}
 
 func c17PermWords(all bool) []uint32 {
 	if all {
@@ -1141,7 +1143,68 @@ outer:
 	return res
 }
 
+// c17OSNames: the os-backed server's id lookup (what its listings show as owner and group) for every ordered pair
+// (uid, gid) over all numbers the account databases know plus unknown ones, in one process (so that whatever the
+// package remembers between lookups is part of what is explored); reference: package os/user asked directly.
+func c17OSNames(c *reg.Ctx) *reg.Result {
+	res := reg.NewResult(c.Part)
+	seen := map[uint32]bool{}
+	var ids []uint32
+	for _, f := range []string{"/etc/passwd", "/etc/group"} {
+		b, _ := os.ReadFile(f)
+		for _, l := range strings.Split(string(b), "\n") {
+			if p := strings.Split(l, ":"); len(p) > 2 {
+				if n, err := strconv.ParseUint(p[2], 10, 32); err == nil && !seen[uint32(n)] {
+					seen[uint32(n)] = true
+					ids = append(ids, uint32(n))
+				}
+			}
+		}
+	}
+	for _, n := range []uint32{4242, 1<<32 - 1} { // no account
+		if !seen[n] {
+			ids = append(ids, n)
+		}
+	}
+	sort.Slice(ids, func(i, j int) bool { return ids[i] < ids[j] })
+	differ := 0
+	for _, n := range ids {
+		if u, g := c17LookupUser(n), c17LookupGroup(n); u != "" && g != "" && u != g {
+			differ++
+		}
+	}
+	name := func(n uint32, look func(uint32) string) string {
+		if s := look(n); s != "" {
+			return s
+		}
+		return fmt.Sprint(n)
+	}
+	for round := 0; round < 2; round++ { // uid-major, then gid-major
+		for _, a := range ids {
+			for _, b := range ids {
+				uid, gid := a, b
+				if round == 1 {
+					uid, gid = b, a
+				}
+				desc := fmt.Sprintf("owner %d:%d", uid, gid)
+				res.Case(desc)
+				fi := &c17InfoUG{c17Info{name: "n", size: 1, mode: 0o644, mtime: 1_000_000_000, uid: uid, gid: gid}}
+				lf := strings.Fields(runLs(osIDLookup{}, fi))
+				wu, wg := name(uid, c17LookupUser), name(gid, c17LookupGroup)
+				if len(lf) < 9 || lf[2] != wu || lf[3] != wg {
+					res.Violate("C17", "c17-os-names", fmt.Sprintf("long name of an entry with %s as the os-backed server renders it: %q; package os/user resolves the owner to %q and the group to %q", desc, strings.Join(lf, " "), wu, wg), desc, nil)
+				}
+				res.Outcome(wu + ":" + wg)
+			}
+		}
+	}
+	res.States = res.Evaluations
+	res.Bound = fmt.Sprintf("all ordered pairs over %d numeric ids (every uid and gid of the account databases, %d of them naming a user and a group differently, and 2 without an account), uid-major then gid-major, in one process", len(ids), differ)
+	return res
+}
+
 func init() {
+	reg.Part("C17/osnames", c17OSNames)
 	reg.Part("C17/modes", c17Modes)
 	reg.Part("C17/codec", c17Codec)
 	reg.Part("C17/served", c17Served)
@@ -1169,6 +1232,7 @@ func init() {
 			return []reg.Job{
 				{Part: "C17/modes", Build: "plain", Shards: 1, BudgetS: 60, Procs: 1, Label: "mode conversions (2^16 wire words, 28672 os modes)"},
 				{Part: "C17/codec", Build: "plain", Shards: 4, BudgetS: 60, Procs: 1, Label: "FileStat/ATTRS codec identity"},
+				{Part: "C17/osnames", Build: "plain", Shards: 1, BudgetS: 60, Procs: 1, Label: "owner and group names of the os-backed server, all (uid, gid) pairs of the account databases"},
 				{Part: "C17/served", Build: "plain", Args: map[string]string{"perms": perms, "owners": owners}, Shards: shards, BudgetS: 80, Procs: procs, Label: "served attributes and long names (" + perms + " permission words, owners " + owners + ")"},
 				{Part: "C17/setstat", Build: "plain", Shards: 4, BudgetS: 80, Procs: 2, Label: "SETSTAT/FSETSTAT vs twin"},
 			}
